@@ -134,11 +134,131 @@ pub fn def() -> CheckDef {
         assumptions: vec![
             "Vec::with_capacity of absurd sizes (alloc aborts) excluded: max_packet_size <= 70000, num_indirect_probes <= 64".into(),
             "the user-supplied Codec, Runtime, BroadcastHandler and Identity do not panic (the simulator's own implementations)".into(),
-            "a feed of more than 65535 members is outside every explored configuration".into(),
+            "clusters beyond the 16-bit count fields (65000 / 66000 members, 1 MiB packets) are covered by the dedicated huge-cluster scenario only".into(),
         ],
         real_components: "one real Foca instance per run (all of src/), codecs: hand-written strict (clean/dirty), bincode, postcard",
         stub_components: "peers, network, clock, API caller are the simulator's generator",
-        batches: vec![Batch { scenario: h06(), quick: 150_000, thorough: 6_000_000 }, Batch { scenario: crate::checks::histchecks::chaos_for("C06"), quick: 3_000, thorough: 150_000 }],
+        batches: vec![Batch { scenario: h06(), quick: 150_000, thorough: 6_000_000 }, Batch { scenario: crate::checks::histchecks::chaos_for("C06"), quick: 3_000, thorough: 150_000 }, Batch { scenario: &HugeCluster, quick: 0, thorough: 0 }],
         extra: Some(extra),
+    }
+}
+
+// ---------------------------------------------------------------------------------------------
+// Very large clusters: more members / pending updates than the 16-bit count field can express.
+// Needs an address space wider than SimId's u16, hence its own tiny identity and harness.
+
+use crate::frame::{Case, RunOut, Scenario, Violation};
+use foca::{Header, Identity, Member, Message, PostcardCodec};
+
+#[derive(Clone, Copy, Debug, PartialEq, Eq, serde::Serialize, serde::Deserialize)]
+pub struct BigId(pub u32);
+impl Identity for BigId {
+    type Addr = u32;
+    fn renew(&self) -> Option<Self> {
+        None
+    }
+    fn addr(&self) -> u32 {
+        self.0
+    }
+    fn win_addr_conflict(&self, _o: &Self) -> bool {
+        false
+    }
+}
+
+#[derive(Default)]
+struct BigRt {
+    sends: Vec<(BigId, Vec<u8>)>,
+}
+impl foca::Runtime<BigId> for BigRt {
+    fn notify(&mut self, _n: foca::Notification<'_, BigId>) {}
+    fn send_to(&mut self, to: BigId, data: &[u8]) {
+        self.sends.push((to, data.to_vec()));
+    }
+    fn submit_after(&mut self, _e: foca::Timer<BigId>, _after: std::time::Duration) {}
+}
+
+/// header; count + exactly that many members; nothing else (no custom broadcasts in this harness)
+fn big_parse(data: &[u8]) -> Result<usize, String> {
+    use bytes::Buf;
+    use foca::Codec;
+    let mut cur: &[u8] = data;
+    let mut c = PostcardCodec;
+    let _h: Header<BigId> = c.decode_header(&mut cur).map_err(|e| format!("header: {e}"))?;
+    if cur.is_empty() {
+        return Ok(0);
+    }
+    if cur.len() < 2 {
+        return Err("stray byte".into());
+    }
+    let n = cur.get_u16() as usize;
+    for i in 0..n {
+        let _m: Member<BigId> = c.decode_member(&mut cur).map_err(|e| format!("member {i} of {n}: {e}"))?;
+    }
+    if !cur.is_empty() {
+        return Err(format!("count field says {n} members but {} bytes follow them", cur.len()));
+    }
+    Ok(n)
+}
+
+pub struct HugeCluster;
+impl Scenario for HugeCluster {
+    fn name(&self) -> &'static str {
+        "huge-cluster"
+    }
+    fn gen(&self, seed: u64, _tier: Tier, i: u64) -> Case {
+        // 0: just below the 16-bit limit, 1: above it
+        let members = if i == 0 { 65_000u32 } else { 66_000 };
+        Case { property: "C06".into(), scenario: self.name().into(), seed, params: json!({"members": members, "max_packet_size": 1u32 << 20}), steps: vec![], explicit: false }
+    }
+    fn run(&self, case: &Case) -> RunOut {
+        let members = case.params["members"].as_u64().unwrap_or(66_000) as u32;
+        let mps = case.params["max_packet_size"].as_u64().unwrap_or(1 << 20) as usize;
+        let mut out = RunOut::default();
+        let mut cfg = foca::Config::simple();
+        cfg.max_packet_size = std::num::NonZeroUsize::new(mps).unwrap();
+        cfg.max_transmissions = std::num::NonZeroU8::new(2).unwrap();
+        let own = BigId(1);
+        let mut foca = foca::Foca::new(own, cfg, crate::prng::SimRng::new(case.seed), PostcardCodec);
+        let ups: Vec<Member<BigId>> = (0..members).map(|k| Member::alive(BigId(2 + k))).collect();
+        let mut vs: Vec<Violation> = Vec::new();
+        let mut step = |what: &str, f: &mut dyn FnMut(&mut BigRt) -> bool, vs: &mut Vec<Violation>| -> bool {
+            let mut rt = BigRt::default();
+            let r = std::panic::catch_unwind(std::panic::AssertUnwindSafe(|| f(&mut rt)));
+            match r {
+                Err(p) => {
+                    let msg = p.downcast_ref::<String>().cloned().or_else(|| p.downcast_ref::<&str>().map(|s| s.to_string())).unwrap_or_default();
+                    vs.push(Violation { property: "C06", tag: crate::script::panic_tag(&msg), detail: format!("{what} with {members} members and max_packet_size {mps}: {msg}"), at: 0 });
+                    false
+                }
+                Ok(_) => {
+                    for (_, data) in &rt.sends {
+                        if let Err(e) = big_parse(data) {
+                            vs.push(Violation { property: "C06", tag: "C06/count-overflow-malformed-datagram".into(), detail: format!("{what} with {members} members: emitted datagram of {} bytes is malformed: {e}", data.len()), at: 0 });
+                        }
+                    }
+                    true
+                }
+            }
+        };
+        let ok = step("apply_many", &mut |rt| foca.apply_many(ups.iter().cloned(), true, rt).is_ok(), &mut vs);
+        let ok = ok && step("gossip", &mut |rt| foca.gossip(rt).is_ok(), &mut vs);
+        if ok {
+            use foca::Codec;
+            let h = Header { src: BigId(2), src_incarnation: 0, dst: own, message: Message::Announce };
+            let mut d = Vec::new();
+            PostcardCodec.encode_header(&h, &mut d).expect("encode");
+            step("Feed reply to an Announce", &mut |rt| foca.handle_data(&d, rt).is_ok(), &mut vs);
+        }
+        out.nontrivial = true;
+        out.signature = members as u64;
+        out.log_hash = members as u64;
+        out.violations = vs;
+        out
+    }
+    fn steps_minimisable(&self) -> bool {
+        false
+    }
+    fn exhaustive_len(&self, _tier: Tier) -> Option<u64> {
+        Some(2)
     }
 }
